@@ -162,6 +162,8 @@ func (P) Monitor(c *hx.CaseRun) []hx.Failure {
 	}
 	var names []string
 	exists := map[int]bool{}
+	iters := map[int][][2][]byte{} // step-wise iterators of the reference: the content as of creation
+	var lastWritten []bop // the ops of the batch written last (diagnosis of aliased keys)
 	r := &refState{}
 	sharded := false
 	suffix := ""
@@ -183,6 +185,7 @@ func (P) Monitor(c *hx.CaseRun) []hx.Failure {
 			ps, hasP := hx.Arg(toks, "prefix")
 			r = &refState{m: map[string][]byte{}, batches: map[int][]bop{}}
 			exists = map[int]bool{}
+			iters = map[int][][2][]byte{}
 			r.hasPref = hasP && ps != "none"
 			if r.hasPref {
 				r.prefix = hx.UnHex(ps)
@@ -318,6 +321,24 @@ func (P) Monitor(c *hx.CaseRun) []hx.Failure {
 					}
 				}
 			}
+		case "iopen":
+			rv, _ := hx.Arg(toks, "rev")
+			iters[id()] = r.iter(arg("s"), arg("e"), rv == "1", under)
+			want = "ok"
+		case "istep":
+			it, ok := iters[id()]
+			switch {
+			case !ok:
+				want = "noiter"
+			case len(it) == 0:
+				want = "end"
+			default:
+				want = hx.Hex(it[0][0]) + ":" + hx.Hex(it[0][1])
+				iters[id()] = it[1:]
+			}
+		case "iclose":
+			delete(iters, id())
+			want = "ok"
 		case "bnew":
 			r.batches[id()] = []bop{}
 			want = "ok"
@@ -328,6 +349,7 @@ func (P) Monitor(c *hx.CaseRun) []hx.Failure {
 			r.batches[id()] = append(r.batches[id()], bop{true, arg("k"), nil})
 			want = "ok"
 		case "bwrite", "bwritesync", "bcommit":
+			lastWritten = r.batches[id()]
 			for _, o := range r.batches[id()] {
 				if o.del {
 					delete(r.m, r.full(o.k, false))
@@ -345,6 +367,7 @@ func (P) Monitor(c *hx.CaseRun) []hx.Failure {
 			want = "ok"
 		case "reopen":
 			r.batches = map[int][]bop{}
+			iters = map[int][][2][]byte{}
 			exists = map[int]bool{}
 			want = "ok"
 		default:
@@ -396,6 +419,9 @@ func (P) Monitor(c *hx.CaseRun) []hx.Failure {
 				pending = true
 			}
 		}
+		if c.Tags["emptykey"] {
+			continue // what bolt and badger do with the empty key is engine-specific (see Rule): tied to the per-engine model only
+		}
 		if c.Tags["rewrite"] {
 			continue // a batch written again without Reset: what it still holds is adapter-specific (see Rule); structural checks only
 		}
@@ -412,6 +438,10 @@ func (P) Monitor(c *hx.CaseRun) []hx.Failure {
 					kind = "under-" + kind
 				}
 				devs = append(devs, n)
+				if aliasedBatch(lastWritten, got[n], want) {
+					fail("batch_atomic", "batch-keeps-only-last-key", "libs/db/prefix_db.go:prefixBatch.Set", fmt.Sprintf("`%s` (op %d) on %s after a written batch with several keys: only the key of the LAST recorded op arrived (got %s, reference says %s): the recorded keys alias one buffer", op, i, n, clipS(got[n], 120), clipS(want, 120)))
+					continue
+				}
 				failK(n, mon, n+":"+kind+suffix, got[n], want, fmt.Sprintf("`%s` (op %d) on %s: got %s, reference ordered map says %s", op, i, n, clipS(got[n], 200), clipS(want, 200)))
 			}
 		}
@@ -440,6 +470,43 @@ func knownClass(n, name string, under bool, toks []string, r *refState, got, wan
 
 var knownSites = map[string]string{}
 
+// aliasedBatch: the last written batch set >= 2 distinct keys, the reference lists them, and the implementation lists,
+// of those keys, only the one of the batch's last op
+func aliasedBatch(b []bop, got, want string) bool {
+	keys := map[string]bool{}
+	last := ""
+	for _, o := range b {
+		if !o.del {
+			keys[string(o.k)] = true
+		}
+		last = string(o.k)
+	}
+	g, ok1 := parseKVs(got)
+	w, ok2 := parseKVs(want)
+	if len(keys) < 2 || !ok1 || !ok2 {
+		return false
+	}
+	inGot, inWant := map[string]bool{}, 0
+	for _, x := range g {
+		inGot[string(x[0])] = true
+	}
+	for _, x := range w {
+		if keys[string(x[0])] {
+			inWant++
+		}
+	}
+	if inWant < 2 {
+		return false
+	}
+	n := 0
+	for k := range keys {
+		if inGot[k] {
+			n++
+		}
+	}
+	return n <= 1 && (n == 0 || inGot[last])
+}
+
 func clipS(s string, n int) string {
 	if len(s) <= n {
 		return s
@@ -462,6 +529,8 @@ func opKind(name string) string {
 		return "write"
 	case "reopen":
 		return "reopen"
+	case "iopen", "istep", "iclose":
+		return "stepwise-iter"
 	}
 	if strings.HasPrefix(name, "b") {
 		return "batch"
